@@ -163,6 +163,8 @@ pub enum Cb {
     Select(String, u16),
     /// (description, index, operate type)
     Operate(String, u16, String),
+    /// a successful operation mirrored into an output status point: (type 2 = binary output status / 6 = analog output status, index, value, time stamp, result)
+    Mirror(u8, u16, f64, u64, UpdateInfo),
 }
 
 #[derive(Clone, Debug)]
@@ -206,6 +208,13 @@ pub struct Shared {
     pub rec: Arc<Mutex<CbLog>>,
     pub beh: Arc<Mutex<AppBehaviour>>,
     pub start: tokio::time::Instant,
+    pub serial: Arc<std::sync::atomic::AtomicU64>,
+}
+
+impl Shared {
+    pub fn new(beh: AppBehaviour, start: tokio::time::Instant) -> Self {
+        Shared { rec: Arc::new(Mutex::new(CbLog::default())), beh: Arc::new(Mutex::new(beh)), start, serial: Default::default() }
+    }
 }
 
 impl Shared {
@@ -376,8 +385,19 @@ macro_rules! control_support {
                 ));
                 let status = self.0.status(index);
                 if status == CommandStatus::Success && self.0.beh.lock().unwrap().mirror_controls {
-                    let f: fn(&$t, u16, &mut DatabaseHandle) = $mirror;
-                    f(&control, index, database);
+                    let f: fn(&$t) -> (u8, f64) = $mirror;
+                    let (ty, v) = f(&control);
+                    // a unique, increasing time stamp per mirrored operation
+                    let serial = self.0.serial.fetch_add(1, std::sync::atomic::Ordering::Relaxed);
+                    let time = Time::Synchronized(Timestamp::new(2_000_000 + serial));
+                    let info = database.transaction(|db| {
+                        if ty == 2 {
+                            db.update2(index, &BinaryOutputStatus::new(v != 0.0, Flags::ONLINE, time), UpdateOptions::detect_event())
+                        } else {
+                            db.update2(index, &AnalogOutputStatus::new(v, Flags::ONLINE, time), UpdateOptions::detect_event())
+                        }
+                    });
+                    self.0.push(Cb::Mirror(ty, index, v, 2_000_000 + serial, info));
                 }
                 status
             }
@@ -385,63 +405,19 @@ macro_rules! control_support {
     };
 }
 
-fn now_time() -> Time {
-    Time::Synchronized(Timestamp::new(0))
-}
+control_support!(Group12Var1, |c| {
+    let on = matches!(c.code.op_type, crate::app::control::OpType::LatchOn | crate::app::control::OpType::PulseOn);
+    (2, if on { 1.0 } else { 0.0 })
+});
+control_support!(Group41Var1, |c| (6, c.value as f64));
+control_support!(Group41Var2, |c| (6, c.value as f64));
+control_support!(Group41Var3, |c| (6, c.value as f64));
+control_support!(Group41Var4, |c| (6, c.value));
 
-control_support!(Group12Var1, |c, index, db| {
-    let on = matches!(
-        c.code.op_type,
-        crate::app::control::OpType::LatchOn | crate::app::control::OpType::PulseOn
-    );
-    db.transaction(|db| {
-        db.update(
-            index,
-            &BinaryOutputStatus::new(on, Flags::ONLINE, now_time()),
-            UpdateOptions::detect_event(),
-        );
-    });
-});
-control_support!(Group41Var1, |c, index, db| {
-    let v = c.value as f64;
-    db.transaction(|db| {
-        db.update(
-            index,
-            &AnalogOutputStatus::new(v, Flags::ONLINE, now_time()),
-            UpdateOptions::detect_event(),
-        );
-    });
-});
-control_support!(Group41Var2, |c, index, db| {
-    let v = c.value as f64;
-    db.transaction(|db| {
-        db.update(
-            index,
-            &AnalogOutputStatus::new(v, Flags::ONLINE, now_time()),
-            UpdateOptions::detect_event(),
-        );
-    });
-});
-control_support!(Group41Var3, |c, index, db| {
-    let v = c.value as f64;
-    db.transaction(|db| {
-        db.update(
-            index,
-            &AnalogOutputStatus::new(v, Flags::ONLINE, now_time()),
-            UpdateOptions::detect_event(),
-        );
-    });
-});
-control_support!(Group41Var4, |c, index, db| {
-    let v = c.value;
-    db.transaction(|db| {
-        db.update(
-            index,
-            &AnalogOutputStatus::new(v, Flags::ONLINE, now_time()),
-            UpdateOptions::detect_event(),
-        );
-    });
-});
+/// the recording callback objects, for rigs that build their own sessions
+pub fn callbacks(shared: &Shared) -> (Box<dyn OutstationApplication>, Box<dyn OutstationInformation>, Box<dyn ControlHandler>) {
+    (Box::new(App(shared.clone())), Box::new(Info(shared.clone())), Box::new(Controls(shared.clone())))
+}
 
 // ---------------------------------------------------------------------------------------------
 // wire-side view of what the outstation transmitted
@@ -482,11 +458,7 @@ impl OutRig {
     pub async fn start(cfg: OutConfig, beh: AppBehaviour) -> OutRig {
         super::init_tracing();
         let start = tokio::time::Instant::now();
-        let shared = Shared {
-            rec: Arc::new(Mutex::new(CbLog::default())),
-            beh: Arc::new(Mutex::new(beh)),
-            start,
-        };
+        let shared = Shared::new(beh, start);
         let modes = LinkModes::stream(if cfg.discard {
             LinkErrorMode::Discard
         } else {
